@@ -1659,7 +1659,8 @@ fn cmd_check(a: &Args) -> i32 {
                 "S1_rows_compared_with_cldr_reference": st.rows_checked,
                 "S3_integers_decoded": st.ints_decoded,
                 "S4_rows_looked_up_through_maximize": st.lookups,
-                "S4_maximize_calls_in_table_order_reverse_order_and_after_neighbouring_misses": st.lookup_queries,
+                "S4_maximize_calls_in_fresh_processes_table_order_reverse_order_after_neighbouring_misses_and_after_lookups_in_neighbouring_tables": st.lookup_queries,
+                "S4_fresh_processes_forked_each_with_another_first_lookup": st.fresh_process_children,
                 "S4_rows_found": st.lookups_found,
                 "S4_tables_wholly_unreachable_not_gating": st.unreachable_tables,
                 "cldr_likely_subtags_keys": rf.key_text.len(),
